@@ -1,5 +1,323 @@
-//! (stub)
+//! C02 — the similarity score equals libfuzzy's fuzzy_compare on every pair,
+//! through every comparison entry point.
+
 use crate::common::*;
-use serde_json::Value;
-pub fn replay(_c: &Value) -> Result<(), String> { Err("not implemented".into()) }
-pub fn run(_ctx: &Ctx) -> Report { Report::new("model_checking") }
+use crate::corpus::ramp;
+use refmodel::text as rt;
+use serde_json::{json, Value};
+use ssdeep::{
+    DualFuzzyHash, FuzzyHash, FuzzyHashCompareTarget, LongDualFuzzyHash, LongFuzzyHash, LongRawFuzzyHash, RawFuzzyHash,
+};
+
+pub type Content = (u8, Vec<u8>, Vec<u8>);
+
+/// Evaluate one ordered pair (raw contents) through all entry points; every
+/// one must return the oracle's score.  Returns the score.
+pub fn score_all_routes(a: &Content, b: &Content) -> Result<u32, String> {
+    let exp = refmodel::score(a.0, &a.1, &a.2, b.0, &b.1, &b.2);
+    let fits_short = |c: &Content| refmodel::normalize(&c.2).len() <= 32 && c.2.len() <= 32;
+    let mut routes: Vec<(&'static str, u32)> = vec![];
+    // the string function: raw spelling and normalized spelling
+    let (ta, tb) = (rt::format(a.0, &a.1, &a.2), rt::format(b.0, &b.1, &b.2));
+    let (na1, na2, nb1, nb2) = (refmodel::normalize(&a.1), refmodel::normalize(&a.2), refmodel::normalize(&b.1), refmodel::normalize(&b.2));
+    let (tna, tnb) = (rt::format(a.0, &na1, &na2), rt::format(b.0, &nb1, &nb2));
+    let s = guarded(|| ssdeep::compare(&ta, &tb))?.map_err(|e| format!("ssdeep::compare({}, {}) fails: {}", ta, tb, e))?;
+    routes.push(("ssdeep::compare(raw texts)", s));
+    let s = guarded(|| ssdeep::compare(&tna, &tnb))?.map_err(|e| format!("ssdeep::compare({}, {}) fails: {}", tna, tnb, e))?;
+    routes.push(("ssdeep::compare(normalized texts)", s));
+    let s = guarded(|| ssdeep::compare(&ta, &tnb))?.map_err(|e| format!("ssdeep::compare mixed fails: {}", e))?;
+    routes.push(("ssdeep::compare(raw, normalized)", s));
+    // long objects
+    let la = guarded(|| LongRawFuzzyHash::new_from_internals_near_raw(a.0, &a.1, &a.2))?;
+    let lb = guarded(|| LongRawFuzzyHash::new_from_internals_near_raw(b.0, &b.1, &b.2))?;
+    let (lna, lnb) = (la.normalize(), lb.normalize());
+    routes.push(("LongFuzzyHash::compare", guarded(|| lna.compare(&lnb))?));
+    let equal = na1 == nb1 && na2 == nb2 && a.0 == b.0;
+    if !equal {
+        routes.push(("LongFuzzyHash::compare_unequal", guarded(|| lna.compare_unequal(&lnb))?));
+    }
+    let dla = guarded(|| LongDualFuzzyHash::from_raw_form(&la))?;
+    let dlb = guarded(|| LongDualFuzzyHash::from_raw_form(&lb))?;
+    // reusable target: fresh and re-initialised (dirty) from each operand kind
+    let mut t = FuzzyHashCompareTarget::from(&lnb); // dirty: holds the other operand first
+    guarded(|| t.init_from(&lna))?;
+    routes.push(("target(init_from long).compare(long)", guarded(|| t.compare(&lnb))?));
+    routes.push(("target.compare(long dual)", guarded(|| t.compare(&dlb))?));
+    let t2 = FuzzyHashCompareTarget::from(&dla);
+    routes.push(("target(From<&dual>).compare(long)", guarded(|| t2.compare(&lnb))?));
+    let t3 = FuzzyHashCompareTarget::from(lna);
+    routes.push(("target(From<hash>).compare(long dual)", guarded(|| t3.compare(&dlb))?));
+    let d = a.0 as i32 - b.0 as i32;
+    if !equal {
+        routes.push(("target.compare_unequal", guarded(|| t.compare_unequal(&lnb))?));
+    }
+    match d {
+        0 => {
+            routes.push(("target.compare_near_eq", guarded(|| t.compare_near_eq(&lnb))?));
+            if !equal {
+                routes.push(("target.compare_unequal_near_eq", guarded(|| t.compare_unequal_near_eq(&lnb))?));
+            }
+        }
+        -1 => routes.push(("target.compare_unequal_near_lt", guarded(|| t.compare_unequal_near_lt(&lnb))?)),
+        1 => routes.push(("target.compare_unequal_near_gt", guarded(|| t.compare_unequal_near_gt(&lnb))?)),
+        _ => {}
+    }
+    // short objects when both fit
+    if fits_short(a) && fits_short(b) {
+        let sa = guarded(|| RawFuzzyHash::new_from_internals_near_raw(a.0, &a.1, &a.2))?;
+        let sb = guarded(|| RawFuzzyHash::new_from_internals_near_raw(b.0, &b.1, &b.2))?;
+        let (sna, snb) = (FuzzyHash::from(sa), FuzzyHash::from(sb));
+        routes.push(("FuzzyHash::compare", guarded(|| sna.compare(&snb))?));
+        if !equal {
+            routes.push(("FuzzyHash::compare_unequal", guarded(|| sna.compare_unequal(&snb))?));
+        }
+        let dsb = guarded(|| DualFuzzyHash::from_raw_form(&sb))?;
+        let mut ts = FuzzyHashCompareTarget::new();
+        guarded(|| ts.init_from(&sna))?;
+        routes.push(("target(init_from short).compare(short)", guarded(|| ts.compare(&snb))?));
+        routes.push(("target.compare(short dual)", guarded(|| ts.compare(&dsb))?));
+        routes.push(("target(long).compare(short)", guarded(|| t.compare(&snb))?));
+        let dsa = guarded(|| DualFuzzyHash::from_raw_form(&sa))?;
+        let mut td = FuzzyHashCompareTarget::from(&lnb);
+        guarded(|| td.init_from(&dsa))?;
+        routes.push(("target(init_from short dual).compare(long)", guarded(|| td.compare(&lnb))?));
+    }
+    for (name, s) in &routes {
+        if *s != exp {
+            return Err(format!("{} = {} but fuzzy_compare = {}   [{} | {}]", name, s, exp, ta, tb));
+        }
+    }
+    Ok(exp)
+}
+
+pub fn cj(c: &Content) -> Value {
+    json!({"log": c.0, "bh1": hex(&c.1), "bh2": hex(&c.2), "text": rt::format(c.0, &c.1, &c.2)})
+}
+pub fn cparse(v: &Value) -> Option<Content> {
+    Some((v["log"].as_u64()? as u8, unhex(v["bh1"].as_str()?), unhex(v["bh2"].as_str()?)))
+}
+
+pub fn replay(c: &Value) -> Result<(), String> {
+    let a = cparse(&c["a"]).ok_or("a")?;
+    let b = cparse(&c["b"]).ok_or("b")?;
+    score_all_routes(&a, &b).map(|_| ())
+}
+
+fn eval(acc: &mut Acc, a: &Content, b: &Content, tag: &str) {
+    acc.evaluations += 1;
+    acc.nontrivial += 1;
+    match score_all_routes(a, b) {
+        Ok(s) => acc.bump(&format!("score={:03}", s)),
+        Err(e) => acc.violation(
+            format!("{} {} | {}", tag, rt::format(a.0, &a.1, &a.2), rt::format(b.0, &b.1, &b.2)),
+            e,
+            json!({"a": cj(a), "b": cj(b)}),
+        ),
+    }
+}
+
+/// 24 content templates: (a.bh1, a.bh2, b.bh1, b.bh2)
+fn templates() -> Vec<(Vec<u8>, Vec<u8>, Vec<u8>, Vec<u8>)> {
+    let x = ramp(20, 0);
+    let mut x_edit = x.clone();
+    x_edit[10] = 63;
+    let mut x_ins = x.clone();
+    x_ins.insert(5, 62);
+    let y = ramp(14, 30);
+    let mut y_edit = y.clone();
+    y_edit[3] = 0;
+    let runs: Vec<u8> = {
+        let mut v = ramp(8, 3);
+        v.extend(vec![9u8; 7]);
+        v.extend(ramp(6, 40));
+        v
+    };
+    let runs2: Vec<u8> = {
+        let mut v = ramp(8, 3);
+        v.extend(vec![9u8; 4]);
+        v.extend(ramp(6, 40));
+        v
+    };
+    let long40 = ramp(40, 2);
+    let mut long40e = long40.clone();
+    long40e[20] = 0;
+    let junk = ramp(15, 45);
+    let full = ramp(64, 0);
+    let mut full_e = full.clone();
+    full_e[63] = 63;
+    full_e[0] = 63;
+    vec![
+        (x.clone(), y.clone(), x.clone(), y.clone()),              // identical
+        (runs.clone(), y.clone(), runs2.clone(), y.clone()),       // identical only after normalisation
+        (x.clone(), y.clone(), x_edit.clone(), junk.clone()),      // similar in bh1 only
+        (junk.clone(), y.clone(), x.clone(), y_edit.clone()),      // similar in bh2 only
+        (x.clone(), y.clone(), y.clone(), x_edit.clone()),         // crossed: a.bh2 ~ b.bh1 (for lt), a.bh1 ~ b.bh2 (for gt)
+        (y.clone(), x.clone(), x_ins.clone(), y_edit.clone()),     // crossed the other way
+        (x.clone(), y.clone(), junk.clone(), ramp(9, 50)),         // no common 7-gram
+        (ramp(6, 0), ramp(6, 0), ramp(6, 0), ramp(5, 0)),          // lengths < 7
+        (vec![], vec![], vec![], vec![]),                          // empty, identical
+        (vec![], vec![], x.clone(), vec![]),                       // empty vs non-empty
+        (x.clone(), long40.clone(), x_edit.clone(), long40e.clone()), // block hash 2 longer than 32
+        (full.clone(), long40.clone(), full_e.clone(), long40.clone()),
+        (ramp(7, 0), vec![], ramp(7, 0), vec![1]),                 // exactly one window, equal bh1
+        (ramp(7, 0), vec![], ramp(8, 0), vec![]),                  // minimal match: cap at small sizes
+        (ramp(32, 0), ramp(32, 9), ramp(32, 1), ramp(32, 10)),     // shifted by one
+        (x.clone(), x.clone(), x_edit.clone(), x_ins.clone()),
+        (runs.clone(), runs.clone(), x.clone(), runs2.clone()),
+        (vec![0, 0, 0, 1, 1, 1, 0, 0, 0, 1, 1, 1, 2], vec![], vec![0, 0, 0, 1, 1, 1, 0, 0, 0, 1, 1, 1, 3], vec![]),
+        (full.clone(), ramp(32, 5), full.clone(), ramp(31, 5)),
+        (x.clone(), vec![], vec![], x.clone()),
+        (long40.clone(), long40.clone(), long40e.clone(), long40e.clone()),
+        (ramp(8, 0), ramp(8, 20), ramp(9, 0), ramp(9, 20)),
+        (x_ins.clone(), y.clone(), x.clone(), y.clone()),
+        (ramp(64, 1), ramp(64, 1), ramp(64, 2), ramp(64, 3)),
+    ]
+}
+
+fn single_edits(x: &[u8], stride: usize) -> Vec<Vec<u8>> {
+    let syms = [0u8, 63, 33];
+    let mut out = vec![];
+    let mut k = 0usize;
+    for pos in 0..=x.len() {
+        for &s in &syms {
+            k += 1;
+            if k % stride != 0 {
+                continue;
+            }
+            if x.len() < 64 {
+                let mut v = x.to_vec();
+                v.insert(pos, s);
+                out.push(v);
+            }
+            if pos < x.len() {
+                let mut v = x.to_vec();
+                v[pos] = s;
+                out.push(v);
+            }
+        }
+        if pos < x.len() && (pos % stride == 0) {
+            let mut v = x.to_vec();
+            v.remove(pos);
+            out.push(v);
+        }
+    }
+    out
+}
+
+pub fn run(ctx: &Ctx) -> Report {
+    let mut rep = Report::new("model_checking");
+    let thorough = ctx.tier == Tier::Thorough;
+    // P1: all 31 x 31 block size pairs x content templates
+    let tpl = templates();
+    let acc = par_shards(31 * 31, |i, acc| {
+        let (la, lb) = ((i / 31) as u8, (i % 31) as u8);
+        for (k, t) in tpl.iter().enumerate() {
+            let a: Content = (la, t.0.clone(), t.1.clone());
+            let b: Content = (lb, t.2.clone(), t.3.clone());
+            eval(acc, &a, &b, "P1");
+            if la == 3 && lb == 4 && k == 4 {
+                acc.sample(json!({"a": cj(&a), "b": cj(&b)}));
+            }
+        }
+    });
+    acc.into_report(&mut rep, "P1_all_block_size_pairs_x_templates");
+
+    // P2: relation x log x (x, every single edit of x; strided double edits)
+    let logs: Vec<u8> = vec![0, 1, 2, 3, 4, 5, 29, 30];
+    let base_lens: Vec<usize> = vec![7, 8, 31, 32, 33, 63, 64];
+    let other = ramp(9, 47);
+    let jobs: Vec<(u8, usize, i32, u8)> = {
+        let mut v = vec![];
+        for &l in &logs {
+            for &bl in &base_lens {
+                for rel in [-1i32, 0, 1] {
+                    for fam in 0..2u8 {
+                        v.push((l, bl, rel, fam));
+                    }
+                }
+            }
+        }
+        v
+    };
+    let acc = par_shards(jobs.len(), |i, acc| {
+        let (log, bl, rel, fam) = jobs[i];
+        // base string: run-free ramp, or a low-entropy normalized string (runs of three of two symbols)
+        let x: Vec<u8> = if fam == 0 { ramp(bl, 0) } else { (0..bl).map(|k| if (k / 3) % 2 == 0 { 0u8 } else { 63 }).collect() };
+        let mut ys = single_edits(&x, 1);
+        // double edits: every single edit of a strided subset of single edits
+        let stride2 = if thorough { 1 } else { 5 };
+        let firsts: Vec<Vec<u8>> = ys.iter().step_by(stride2).cloned().collect();
+        for f in &firsts {
+            ys.extend(single_edits(f, if thorough { 1 } else { 2 }));
+        }
+        ys.push(x.clone());
+        ys.sort();
+        ys.dedup();
+        for y in &ys {
+            if y.len() > 64 {
+                continue;
+            }
+            let (a, b): (Content, Content) = match rel {
+                0 => ((log, x.clone(), other.clone()), (log, y.clone(), other.clone())),
+                -1 => {
+                    if log >= 30 {
+                        continue;
+                    }
+                    ((log, other.clone(), x.clone()), (log + 1, y.clone(), other.clone()))
+                }
+                _ => {
+                    if log == 0 {
+                        continue;
+                    }
+                    ((log, x.clone(), other.clone()), (log - 1, other.clone(), y.clone()))
+                }
+            };
+            eval(acc, &a, &b, "P2");
+            // the same strings in the block hash 2 position at equal sizes (effective log + 1; 31 at the largest size)
+            if rel == 0 {
+                let a2: Content = (log, other.clone(), x.clone());
+                let b2: Content = (log, ramp(9, 20), y.clone());
+                eval(acc, &a2, &b2, "P2-bh2");
+            }
+        }
+        if i == 10 {
+            acc.sample(json!({"relation": rel, "log": log, "base_len": bl, "edited_strings": ys.len()}));
+        }
+    });
+    acc.into_report(&mut rep, "P2_relations_x_logs_x_single_and_double_edits");
+
+    // P3: run insertion / rotation (raw spellings that only agree after normalisation)
+    let mut p3: Vec<(Content, Content)> = vec![];
+    for &log in &[0u8, 3, 4, 30] {
+        let base = ramp(24, 0);
+        for pos in [0usize, 5, 12, 23] {
+            for extra in [1usize, 2, 3, 4, 10, 40] {
+                let mut v = base.clone();
+                let sym = v[pos];
+                for _ in 0..extra {
+                    if v.len() < 64 {
+                        v.insert(pos, sym);
+                    }
+                }
+                p3.push(((log, base.clone(), vec![]), (log, v.clone(), vec![])));
+                p3.push(((log, v.clone(), ramp(10, 3)), (log, base.clone(), ramp(10, 3))));
+            }
+        }
+        for rot in 1..24usize {
+            let mut r = base.clone();
+            r.rotate_left(rot);
+            p3.push(((log, base.clone(), vec![]), (log, r, vec![])));
+        }
+    }
+    let acc = par_shards(p3.len(), |i, acc| {
+        eval(acc, &p3[i].0, &p3[i].1, "P3");
+        eval(acc, &p3[i].1, &p3[i].0, "P3");
+    });
+    acc.into_report(&mut rep, "P3_run_insertion_and_rotation");
+    rep.set("exhaustive", true);
+    rep.set(
+        "rule",
+        "P1: all 31x31 block-size pairs x 24 content templates (identical; identical only after normalisation; similar in one block hash; crossed a.bh2~b.bh1 and the mirror; no common 7-gram; lengths < 7; empty; block hash 2 longer than 32; capacity lengths); P2: relation in {eq, lt, gt} x log in {0..5, 29, 30} x base strings of length {7,8,31,32,33,63,64} against EVERY single edit (insert / replace with 3 symbols / delete at every position) and strided double edits, in the block hash 1 and block hash 2 positions; P3: run insertion and rotations.  Every pair is evaluated through up to 19 entry points (string function with raw / normalised / mixed spellings, FuzzyHash / LongFuzzyHash compare and compare_unequal, reusable target initialised by init_from (dirty) / From from short, long, dual operands, compare_near_eq / compare_unequal*), all of which must equal the oracle (DP edit distance + naive 7-gram scan + the ssdeep formula and cap).",
+    );
+    rep
+}
